@@ -255,6 +255,8 @@ PROPS["C13"]["thorough_engines"] = [_hist("lib", sc, "C13", w) for sc, w in [
     ("watcher_kind_change_keeps_paths", "after a watcher kind change the configured paths are registered with the new watcher"),
     ("mode_change_after_failed_unwatch", "a path whose mode changed while its unwatch failed stays registered after a later change"),
     ("change_during_apply_is_not_lost", "a configuration change made while the previous one is being applied is applied")]]
+PROPS["C13"]["thorough_engines"] = PROPS["C13"]["thorough_engines"] + [replay_engine("lib", "config_sequences_bounded", "C13.bounded.events_arrive_exactly_as_configured_once_changes_stop",
+    "real library, native watcher, real file system: 10 seeded sequences of 5 run-time path-set changes over two disjoint directories x {absent, recursive, non-recursive}, issued 0 / 3 / 60 ms apart; once they stop, a file written in a configured directory is reported, one in its subdirectory iff the watch is recursive, nothing from an unconfigured directory (a mismatch must persist over three rounds to count)")]
 PROPS["C18"]["fallback"] = PROPS["C18"]["fallback"] + [script_engine("cli_argv.py", "cli_argv", "C18.bounded.cli_child_and_shell_argv",
     "the real binary: without a shell (-n, --shell=none) the child receives every argument byte for byte for 52 argument lists over 15 awkward strings (empty, spaces, quotes, $, *, newline, multi-byte, leading dashes); with --shell=<prog [options]> the shell is invoked as <options..> -c \"<words joined by one space>\" (6 cases)")]
 PROPS["C18"]["thorough_engines"] = PROPS["C18"]["fallback"]
